@@ -175,6 +175,17 @@ static void world_open(const config_t *cfg) {
 	KSI_AsyncService_setOption(W.svc, KSI_ASYNC_OPT_SND_TIMEOUT, (void *)(size_t)cfg->snd);
 	KSI_AsyncService_setOption(W.svc, KSI_ASYNC_OPT_RCV_TIMEOUT, (void *)(size_t)cfg->rcv);
 	KSI_AsyncService_setOption(W.svc, KSI_ASYNC_OPT_CON_TIMEOUT, (void *)(size_t)cfg->con);
+	{
+		/* the configured times are the ones that count ("once the configured time has elapsed", 0 included): the service must have taken them */
+		static const int OPT[3] = {KSI_ASYNC_OPT_SND_TIMEOUT, KSI_ASYNC_OPT_RCV_TIMEOUT, KSI_ASYNC_OPT_CON_TIMEOUT};
+		long long want[3];
+		int i;
+		want[0] = cfg->snd; want[1] = cfg->rcv; want[2] = cfg->con;
+		for (i = 0; i < 3; i++) {
+			size_t got = 12345;
+			if (KSI_AsyncService_getOption(W.svc, OPT[i], &got) != KSI_OK || (long long)got != want[i]) { HF("timeout-option-not-taken", "%s time-out set to %lld s, the service reports %zu", i == 0 ? "send" : i == 1 ? "receive" : "connect", want[i], got); W.violated = 1; }
+		}
+	}
 }
 static void world_close(void) {
 	int i;
